@@ -162,14 +162,14 @@ namespace booster {
 		///
 		inline const_buffer buffer(std::vector<char> const &d)
 		{
-			return buffer(&d.front(),d.size());
+			return buffer(d.data(),d.size());
 		}
 		///
 		/// Create a buffer from std::vector<char>
 		///
 		inline mutable_buffer buffer(std::vector<char> &d)
 		{
-			return buffer(&d.front(),d.size());
+			return buffer(d.data(),d.size());
 		}
 		///
 		/// Create a buffer from std::string
